@@ -364,7 +364,7 @@ class Ctx:
         }
         # evidence under /verif/evidence describes /repo only: a run against another tree (VERIF_REPO, used to
         # evaluate seeded changes) writes its evidence under .work/alt-evidence instead
-        evdir = os.path.join(VERIF, "evidence") if REPO == "/repo" else os.path.join(VERIF, ".work", "alt-evidence")
+        evdir = os.path.join(VERIF, "evidence") if REPO == "/repo" and not getattr(self, "ext_only", False) else os.path.join(VERIF, ".work", "alt-evidence")
         os.makedirs(evdir, exist_ok=True)
         with open(os.path.join(evdir, self.pid + ".json"), "w") as f:
             json.dump(ev, f, indent=1, default=str)
@@ -467,6 +467,9 @@ def main(argv):
     a = ap.parse_args(argv)
     seed = int(os.environ.get("VERIF_SEED") or 1)
     pid = a.pid.upper()
+    ext = pid.startswith("EXT:")   # stand-alone run of an extension (tools/checks/<name>.py: run_ext); evidence goes to .work/alt-evidence
+    if ext:
+        pid = pid[4:]
     modp = os.path.join(VERIF, "tools", "checks", pid.lower() + ".py")
     if not os.path.exists(modp):
         print("no such check", pid)
@@ -475,9 +478,10 @@ def main(argv):
     mod = importlib.util.module_from_spec(spec)
     spec.loader.exec_module(mod)
     ctx = Ctx(pid, a.tier, seed, a.replay)
+    ctx.ext_only = ext
     rc = 2
     try:
-        mod.run(ctx)
+        (mod.run_ext if ext else mod.run)(ctx)
         rc = 1 if ctx.violations else 0
     except Inconclusive as e:
         log("INCONCLUSIVE:", e)
